@@ -16,8 +16,15 @@ func init() {
 			jobs = append(jobs, Job{Pkg: dkgPkg, Fn: "VF_C11_Deals", Opts: opts, Tag: fmt.Sprintf("n=%d t=%d", c[0], c[1]), Case: "ProcessDeals",
 				Params: map[string]string{"n": fmt.Sprint(c[0]), "t": fmt.Sprint(c[1])}})
 		}
+		// two cooperating dealers that swap their commitments AND their deals (each looks consistent under the other's name)
+		jobs = append(jobs, Job{Pkg: dkgPkg, Fn: "VF_C11_Deals", Opts: opts, Tag: "n=3 t=2 dealers 1 and 2 swapped", Case: "ProcessDeals",
+			Params: map[string]string{"n": "3", "t": "2", "swap": "1"}})
+		swapJob := jobs[len(jobs)-1]
 		res := cr.Pool.Run(jobs)
 		cr.absorb(jobs, res)
+		if len(cr.fails) == 0 {
+			cr.validateNatively(swapJob, nil, nil)
+		}
 		// contract validation against real kyber: every kind of deviation (and the honest case) natively, n=2
 		if len(cr.fails) == 0 {
 			for k := 0; k < 10; k++ {
